@@ -305,7 +305,21 @@ pub fn check(case: &Case, w: usize) -> CheckResult {
             continue;
         }
         let argv: Vec<&str> = args.iter().map(|s| s.as_str()).collect();
+        // a fifth of the failing tasks fail because their command file has lost its x bit
+        // (status `not_executable`) instead of exiting non-zero
+        let noexec = match &r.fail {
+            Some((fc, ft, code)) if code % 5 == 0 => Some(env.path(&bb::simple_cmd_file(&cfg, ft, fc))),
+            _ => None,
+        };
+        if let Some(f) = &noexec {
+            use std::os::unix::fs::PermissionsExt;
+            let _ = std::fs::set_permissions(f, std::fs::Permissions::from_mode(0o644));
+        }
         let out = env.mr(&argv);
+        if let Some(f) = &noexec {
+            use std::os::unix::fs::PermissionsExt;
+            let _ = std::fs::set_permissions(f, std::fs::Permissions::from_mode(0o755));
+        }
         let Some(doc) = out.json() else {
             return inconclusive(format!("run {} produced no JSON: {}", k, out.brief()));
         };
@@ -450,7 +464,7 @@ fn blocks_brief(l: &Logs) -> Value {
 
 pub fn run(ctx: &mut Ctx) {
     ctx.rule = "max_retained_runs M in 1..5 x a history of 1..3M+3 runs (one case in twelve: M in 9..12 - 10 by leaving the setting out - and M+1..M+4 runs), each with its own command subset, target selection, per-task output tagged with the run number, \
-silent streams, (25%) one failing task, and (2 in 8) completed runs that have nothing to do (a sequence expanding to no command; a change-driven run right after `checkpoint update -p`), and (2 in 7) invocations that abort before completing (malformed argmap file, undefined sequence) after which everything must still show the last completed run. model: the ids in use and, per id, the document and logs of its latest occupant. after every run: `result show` == printed document \
+silent streams, (25%) one failing task (a fifth of them by a command file without the x bit), and (2 in 8) completed runs that have nothing to do (a sequence expanding to no command; a change-driven run right after `checkpoint update -p`), and (2 in 7) invocations that abort before completing (malformed argmap file, undefined sequence) after which everything must still show the last completed run. model: the ids in use and, per id, the document and logs of its latest occupant. after every run: `result show` == printed document \
 (modulo timestamp); `log show` == exactly that run's non-empty logs as a set of (header, bytes) blocks; `log show --id` for each of the last min(k,M) runs; <= M ids and directories. \
 non-trivial = history longer than M in which two runs sharing an id differ in their (command,target) sets; distinct by SHA-256"
         .to_string();
